@@ -114,11 +114,11 @@ def parse(path):
             cur_kind, cur_arg = d, int(rest)
         elif d == 'type':
             cur_kind, cur_arg = 'type', rest
-        elif d in ('at', 'after-marker'):
+        elif d in ('at', 'after'):
             mm = re.match(r'^"(.*)"\s*(#(\d+))?$', rest)
             if not mm:
                 raise SpecError("%s:%d: bad at directive" % (path, ln))
-            cur_kind, cur_arg = 'at', (mm.group(1), int(mm.group(3)) if mm.group(3) else None)
+            cur_kind, cur_arg = d, (mm.group(1), int(mm.group(3)) if mm.group(3) else None)
         else:
             raise SpecError("%s:%d: unknown directive %s" % (path, ln, d))
         if cur_item is None and cur_kind not in ('verbatim', 'inside', 'root', None):
